@@ -53,16 +53,18 @@ package ucfg
 //@ ensures [nonnil] result != nil
 
 //@ func (*fields).delAt
-//@ props C12
+//@ props C12 C15
+//@ tagged-only C15
 //@ requires f != nil
 //@ modifies f.a, elems(f.a)
 //@ ensures [oob] !(0 <= i && i < len(old(f.a))) ==> !result && f.a == old(f.a)
 //@ ensures [len] (0 <= i && i < len(old(f.a))) ==> result && len(f.a) == len(old(f.a)) - 1
 //@ ensures [prefix] (0 <= i && i < len(old(f.a))) ==> forall j int :: 0 <= j && j < i ==> f.a[j] == old(f.a[j])
 //@ ensures [shift] (0 <= i && i < len(old(f.a))) ==> forall j int :: i <= j && j < len(f.a) ==> f.a[j] == old(f.a[j+1])
+//@ ensures [renumber @C15] (0 <= i && i < len(old(f.a))) && (forall j int :: 0 <= j && j < len(old(f.a)) ==> old(ctxof(f.a[j]).field) == itoa(j)) ==> forall j int :: 0 <= j && j < len(f.a) ==> ctxof(f.a[j]).field == itoa(j)
 
 //@ func (*fields).setAt
-//@ props C12 C01
+//@ props C12 C01 C15
 //@ requires f != nil
 //@ requires 0 <= idx && idx < 9223372036854775807
 //@ modifies f.a, elems(f.a)
@@ -75,10 +77,12 @@ package ucfg
 //@ ensures [lengrow] idx >= len(old(f.a)) ==> len(f.a) == idx + 1
 //@ ensures [frame] forall j int :: 0 <= j && j < len(old(f.a)) && j != idx ==> f.a[j] == old(f.a[j])
 //@ ensures [pad] forall j int :: len(old(f.a)) <= j && j < idx ==> isNilVal(f.a[j])
+//@ ensures [pad_ctx @C15,C12] forall j int :: len(old(f.a)) <= j && j < idx ==> typeof(f.a[j]) == *cfgNil && f.a[j].(*cfgNil).cfgPrimitive.ctx.parent == parent && f.a[j].(*cfgNil).cfgPrimitive.ctx.field == itoa(j)
 //@ loop 1 invariant l <= i && i <= idx
 //@ loop 1 invariant len(tmp) == idx + 1
 //@ loop 1 invariant forall j int :: 0 <= j && j < l ==> tmp[j] == old(f.a[j])
 //@ loop 1 invariant forall j int :: l <= j && j < i ==> isNilVal(tmp[j])
+//@ loop 1 invariant forall j int :: l <= j && j < i ==> typeof(tmp[j]) == *cfgNil && allocated(tmp[j]) && tmp[j].(*cfgNil).cfgPrimitive.ctx.parent == parent && tmp[j].(*cfgNil).cfgPrimitive.ctx.field == itoa(j)
 //@ loop 1 invariant f.a == old(f.a)
 //@ loop 1 invariant forall j int :: 0 <= j && j < len(old(f.a)) ==> old(f.a)[j] == old(f.a[j])
 //@ loop 1 decreases idx - i
@@ -174,7 +178,7 @@ package ucfg
 //@ ensures typeof(r) == typeof(self)
 
 //@ func (*fields).append
-//@ props C01 C10
+//@ props C01 C10 C15
 //@ requires f != nil
 //@ requires len(f.a) + len(a) < 9223372036854775807
 //@ requires base(a) != base(f.a)
@@ -186,16 +190,19 @@ package ucfg
 //@ ensures [copiesAbs] forall k int :: len(old(f.a)) <= k && k < len(f.a) ==> copyOf(f.a[k], old(a[k - len(old(f.a))]))
 //@ ensures [fresh] len(a) > 0 ==> fresh(f.a)
 //@ ensures [same] len(a) == 0 ==> f.a == old(f.a)
+//@ ensures [ctx @C15,C10,C01] forall j int :: 0 <= j && j < len(a) ==> cctx(f.a[len(old(f.a)) + j]).parent == parent && cctx(f.a[len(old(f.a)) + j]).field == itoa(len(old(f.a)) + j)
 //@ loop 1 invariant 0 <= i && i <= count && l == len(old(f.a)) + i && len(f.a) == l
 //@ loop 1 invariant i > 0 ==> fresh(f.a)
 //@ loop 1 invariant i == 0 ==> f.a == old(f.a)
 //@ loop 1 invariant forall j int :: 0 <= j && j < len(a) ==> a[j] == old(a[j])
 //@ loop 1 invariant forall j int :: 0 <= j && j < len(old(f.a)) ==> f.a[j] == old(f.a[j])
 //@ loop 1 invariant forall j int :: 0 <= j && j < i ==> copyOf(f.a[len(old(f.a)) + j], old(a[j]))
+//@ loop 1 invariant forall j int :: 0 <= j && j < i ==> cctx(f.a[len(old(f.a)) + j]).parent == parent && cctx(f.a[len(old(f.a)) + j]).field == itoa(len(old(f.a)) + j)
 //@ loop 1 decreases count - i
 
 //@ func mergeConfigAppendArr
-//@ props C01 C10
+//@ props C01 C10 C15
+//@ tagged-only C15
 //@ requires to != nil && to.fields != nil && from != nil && from.fields != nil
 //@ requires base(from.fields.a) != base(to.fields.a)
 //@ requires len(to.fields.a) + len(from.fields.a) < 9223372036854775807
@@ -205,10 +212,12 @@ package ucfg
 //@ ensures [len] len(to.fields.a) == len(old(to.fields.a)) + len(old(from.fields.a))
 //@ ensures [AthenB_prefix] forall j int :: 0 <= j && j < len(old(to.fields.a)) ==> to.fields.a[j] == old(to.fields.a[j])
 //@ ensures [AthenB_copies] forall j int :: 0 <= j && j < len(old(from.fields.a)) ==> copyOf(to.fields.a[len(old(to.fields.a)) + j], old(from.fields.a[j]))
+//@ ensures [ctx @C15,C01,C10] forall j int :: 0 <= j && j < len(old(from.fields.a)) ==> cctx(to.fields.a[len(old(to.fields.a)) + j]).parent == subval(to) && cctx(to.fields.a[len(old(to.fields.a)) + j]).field == itoa(len(old(to.fields.a)) + j)
 //@ ensures [dict] to.fields.d == old(to.fields.d)
 
 //@ func mergeConfigPrependArr
-//@ props C01 C10
+//@ props C01 C10 C15
+//@ tagged-only C15
 //@ requires to != nil && to.fields != nil && from != nil && from.fields != nil
 //@ requires len(to.fields.a) + len(from.fields.a) < 9223372036854775807
 //@ requires forall j int :: 0 <= j && j < len(from.fields.a) ==> from.fields.a[j] != nil
@@ -219,10 +228,13 @@ package ucfg
 //@ ensures [len] len(old(from.fields.a)) > 0 ==> len(to.fields.a) == len(old(to.fields.a)) + len(old(from.fields.a))
 //@ ensures [BthenA_B] len(old(from.fields.a)) > 0 ==> forall j int :: 0 <= j && j < len(old(from.fields.a)) ==> copyOf(to.fields.a[j], old(from.fields.a[j]))
 //@ ensures [BthenA_A] len(old(from.fields.a)) > 0 ==> forall j int :: 0 <= j && j < len(old(to.fields.a)) ==> copyOf(to.fields.a[len(old(from.fields.a)) + j], old(to.fields.a[j]))
+//@ ensures [ctx_B @C15,C01,C10] len(old(from.fields.a)) > 0 ==> forall j int :: 0 <= j && j < len(old(from.fields.a)) ==> cctx(to.fields.a[j]).parent == subval(to) && cctx(to.fields.a[j]).field == itoa(j)
+//@ ensures [ctx_A @C15,C01,C10] len(old(from.fields.a)) > 0 ==> forall j int :: 0 <= j && j < len(old(to.fields.a)) ==> cctx(to.fields.a[len(old(from.fields.a)) + j]).parent == subval(to) && cctx(to.fields.a[len(old(from.fields.a)) + j]).field == itoa(len(old(from.fields.a)) + j)
 //@ ensures [dict] to.fields.d == old(to.fields.d)
 
 //@ func mergeConfigReplaceArr
-//@ props C01 C10
+//@ props C01 C10 C15
+//@ tagged-only C15
 //@ requires to != nil && to.fields != nil && from != nil && from.fields != nil
 //@ requires len(from.fields.a) < 9223372036854775807
 //@ requires forall j int :: 0 <= j && j < len(from.fields.a) ==> from.fields.a[j] != nil
@@ -231,6 +243,7 @@ package ucfg
 //@ ensures [emptyB] len(old(from.fields.a)) == 0 ==> to.fields.a == old(to.fields.a)
 //@ ensures [len] len(old(from.fields.a)) > 0 ==> len(to.fields.a) == len(old(from.fields.a))
 //@ ensures [Balone] len(old(from.fields.a)) > 0 ==> forall j int :: 0 <= j && j < len(old(from.fields.a)) ==> copyOf(to.fields.a[j], old(from.fields.a[j]))
+//@ ensures [ctx @C15,C01,C10] len(old(from.fields.a)) > 0 ==> forall j int :: 0 <= j && j < len(old(from.fields.a)) ==> cctx(to.fields.a[j]).parent == subval(to) && cctx(to.fields.a[j]).field == itoa(j)
 //@ ensures [dict] to.fields.d == old(to.fields.d)
 
 //@ ghost func mvSpec(old value, v value) value
@@ -263,7 +276,8 @@ package ucfg
 //@ ensures [recurse] old != nil && cfgEval(old) != nil && cfgEval(v) != nil && err == nil ==> r == subval(cfgEval(old)) && mergedInto(cfgEval(old), cfgEval(v), opts)
 
 //@ func mergeConfigMergeArr
-//@ props C01
+//@ props C01 C15
+//@ tagged-only C15
 //@ requires opts != nil
 //@ requires to != nil && to.fields != nil && from != nil && from.fields != nil
 //@ requires base(from.fields.a) != base(to.fields.a)
@@ -280,11 +294,14 @@ package ucfg
 //@ ensures [merged_longerB] result == nil && len(old(from.fields.a)) > len(old(to.fields.a)) ==> forall j int :: 0 <= j && j < len(old(to.fields.a)) ==> copyOf(to.fields.a[j], mvSpec(old(to.fields.a[j]), old(from.fields.a[j])))
 //@ ensures [tailB] result == nil ==> forall j int :: 0 <= j && j < len(old(from.fields.a)) - len(old(to.fields.a)) ==> copyOf(to.fields.a[len(old(to.fields.a)) + j], old(from.fields.a[len(old(to.fields.a)) + j]))
 //@ ensures [tailA] result == nil ==> forall j int :: len(old(from.fields.a)) <= j && j < len(old(to.fields.a)) ==> to.fields.a[j] == old(to.fields.a[j])
+//@ ensures [ctx_merged @C15,C01] result == nil ==> forall j int :: 0 <= j && j < len(old(to.fields.a)) && j < len(old(from.fields.a)) ==> cctx(to.fields.a[j]).parent == subval(to) && cctx(to.fields.a[j]).field == itoa(j)
+//@ ensures [ctx_tailB @C15,C01] result == nil ==> forall j int :: 0 <= j && j < len(old(from.fields.a)) - len(old(to.fields.a)) ==> cctx(to.fields.a[len(old(to.fields.a)) + j]).parent == subval(to) && cctx(to.fields.a[len(old(to.fields.a)) + j]).field == itoa(len(old(to.fields.a)) + j)
 //@ loop 1 invariant 0 <= i && i <= l
 //@ loop 1 invariant to.fields == old(to.fields) && from.fields == old(from.fields) && to.fields.a == old(to.fields.a) && from.fields.a == old(from.fields.a)
 //@ loop 1 invariant forall j int :: 0 <= j && j < len(from.fields.a) ==> from.fields.a[j] == old(from.fields.a[j])
 //@ loop 1 invariant forall j int :: i <= j && j < len(to.fields.a) ==> to.fields.a[j] == old(to.fields.a[j])
 //@ loop 1 invariant forall j int :: 0 <= j && j < i ==> copyOf(to.fields.a[j], mvSpec(old(to.fields.a[j]), old(from.fields.a[j])))
+//@ loop 1 invariant forall j int :: 0 <= j && j < i ==> cctx(to.fields.a[j]).parent == subval(to) && cctx(to.fields.a[j]).field == itoa(j)
 //@ loop 1 decreases l - i
 
 //@ func (*fields).get
@@ -842,8 +859,8 @@ package ucfg
 //@ ensures [rollback] !deref(ok) ==> deref(to).fields.d == deref(old)
 
 //@ func mergeConfigDict
-//@ props C01 C10 C11
-//@ tagged-only C11
+//@ props C01 C10 C11 C15
+//@ tagged-only C11 C15
 //@ uses cfgnil
 //@ requires opts != nil && dictOK(to, from)
 //@ requires !inTree(to, opts) && !inTree(to, from) && !inTree(to, from.fields) && (from.fields.d != nil ==> !inTree(to, from.fields.d))
@@ -852,8 +869,8 @@ package ucfg
 //@ ensures [source_untouched @C01,C10,C11] from.fields == old(from.fields) && from.fields.d == old(from.fields.d) && forall k string :: has(from.fields.d, k) == old(has(from.fields.d, k)) && (has(from.fields.d, k) ==> from.fields.d[k] == old(from.fields.d[k]))
 //@ ensures [union_keys] result == nil && old(from.fields.d) != nil && old(opts.configValueHandling) != cfgReplaceValue ==> forall k string :: has(to.fields.d, k) == (old(has(to.fields.d, k)) || old(has(from.fields.d, k)))
 //@ ensures [replace_keys] result == nil && old(opts.configValueHandling) == cfgReplaceValue && old(len(from.fields.d)) != 0 ==> forall k string :: has(to.fields.d, k) == old(has(from.fields.d, k))
-//@ ensures [new_keys] result == nil && old(len(from.fields.d)) != 0 ==> forall k string :: old(has(from.fields.d, k)) && (old(opts.configValueHandling) == cfgReplaceValue || !old(has(to.fields.d, k))) ==> copyOf(to.fields.d[k], mvSpec(nilv(), old(from.fields.d[k]))) && fresh(to.fields.d[k]) && cctx(to.fields.d[k]).parent == subval(to) && cctx(to.fields.d[k]).field == k
-//@ ensures [both_keys] result == nil && old(len(from.fields.d)) != 0 && old(opts.configValueHandling) != cfgReplaceValue ==> forall k string :: old(has(from.fields.d, k)) && old(has(to.fields.d, k)) ==> copyOf(to.fields.d[k], mvSpec(old(to.fields.d[k]), old(from.fields.d[k]))) && fresh(to.fields.d[k]) && cctx(to.fields.d[k]).parent == subval(to) && cctx(to.fields.d[k]).field == k
+//@ ensures [new_keys @C01,C10,C15] result == nil && old(len(from.fields.d)) != 0 ==> forall k string :: old(has(from.fields.d, k)) && (old(opts.configValueHandling) == cfgReplaceValue || !old(has(to.fields.d, k))) ==> copyOf(to.fields.d[k], mvSpec(nilv(), old(from.fields.d[k]))) && fresh(to.fields.d[k]) && cctx(to.fields.d[k]).parent == subval(to) && cctx(to.fields.d[k]).field == k
+//@ ensures [both_keys @C01,C10,C15] result == nil && old(len(from.fields.d)) != 0 && old(opts.configValueHandling) != cfgReplaceValue ==> forall k string :: old(has(from.fields.d, k)) && old(has(to.fields.d, k)) ==> copyOf(to.fields.d[k], mvSpec(old(to.fields.d[k]), old(from.fields.d[k]))) && fresh(to.fields.d[k]) && cctx(to.fields.d[k]).parent == subval(to) && cctx(to.fields.d[k]).field == k
 //@ ensures [A_only] result == nil && old(len(from.fields.d)) != 0 && old(opts.configValueHandling) != cfgReplaceValue ==> forall k string :: old(has(to.fields.d, k)) && !old(has(from.fields.d, k)) ==> to.fields.d[k] == old(to.fields.d[k])
 //@ ensures [rollback] result != nil && old(opts.configValueHandling) == cfgReplaceValue ==> to.fields.d == old(to.fields.d)
 //@ ensures [arr] to.fields == old(to.fields) && to.fields.a == old(to.fields.a)
@@ -1252,30 +1269,47 @@ package ucfg
 //@ iface Error.Reason :: self -> r
 //@ pure
 
+// pathOfCtx(ctx, sep): the path context.path computes for a context value in the (constant) heap of one read;
+// the clauses are the unfolding of the statement: the names and indices from the root down, joined by sep.
+//@ ghost func pathOfCtx(c context, sep string) string
+
 //@ func (*context).path :: c, sep -> r
-//@ props C11
-//@ nonil
+//@ props C11 C15
+//@ requires c != nil
 //@ pure
+//@ ensures [naming !unproved] r == pathOfCtx(deref(c), sep)
+//@ ensures [root @C15] c.field == "" ==> r == ""
+//@ ensures [top @C15] c.field != "" && c.parent == nil ==> r == c.field
+//@ ensures [top2 @C15] c.field != "" && c.parent != nil && pathOfCtx(ctxof(c.parent), sep) == "" ==> r == c.field
+//@ ensures [nested @C15] c.field != "" && c.parent != nil && pathOfCtx(ctxof(c.parent), sep) != "" ==> r == cat3(pathOfCtx(ctxof(c.parent), sep), sep, c.field)
 
 //@ func (*context).pathOf :: c, field, sep -> r
-//@ props C11
-//@ nonil
+//@ props C11 C15
+//@ requires c != nil
 //@ pure
+//@ ensures [top @C15] pathOfCtx(deref(c), sep) == "" ==> r == field
+//@ ensures [nested @C15] pathOfCtx(deref(c), sep) != "" ==> r == cat3(pathOfCtx(deref(c), sep), sep, field)
 
 //@ func (*Config).Path :: c, sep -> r
-//@ props C11
+//@ props C11 C15
 //@ requires c != nil
 //@ pure
+//@ ensures [spec @C15] r == pathOfCtx(c.ctx, sep)
 
 //@ func (*Config).PathOf :: c, field, sep -> r
-//@ props C11
+//@ props C11 C15
 //@ requires c != nil
 //@ pure
+//@ ensures [top @C15] pathOfCtx(c.ctx, sep) == "" ==> r == field
+//@ ensures [nested @C15] pathOfCtx(c.ctx, sep) != "" ==> r == cat3(pathOfCtx(c.ctx, sep), sep, field)
 
 //@ func (*Config).Parent :: c -> r
-//@ props C11
+//@ props C11 C15
 //@ requires c != nil
 //@ pure
+//@ ensures [root @C15] c.ctx.parent == nil ==> r == nil
+//@ ensures [node @C15] typeof(c.ctx.parent) == cfgSub ==> r == c.ctx.parent.(cfgSub).c
+//@ ensures [other @C15] c.ctx.parent != nil && typeof(c.ctx.parent) != cfgSub ==> r == nil
 
 // The closures through which a dynamic value (reference / splice) forwards a conversion: they write their
 // captured result variables and nothing of any configuration.
